@@ -25,6 +25,7 @@ BATCH = 24
 
 
 MECH_PASSIVE_ARG = "nested-call-drops-passive-marker-of-argument"
+PLAIN_CONSUMERS = {"pass", "add2", "add3", "acc", "count", "sample", "sample3", "gate", "halfgate", "delay", "sum2", "max2", "rec"}
 
 
 def variants(rng, base):
@@ -37,7 +38,12 @@ def variants(rng, base):
             g, k = rng.choice(sites0)
             st = base.graphs[g][k]
             q = rng.randrange(len(st.args))
-            if not st.args[q].startswith("~"):
+            # only a parameter whose consumers inside the callee are plain nodes: what a passive() marker means for an element of an
+            # ASSEMBLED list (list2 / allvalid2 ...), for an argument handed on to a further call, for a feedback binding, a
+            # selection or the callee's result is not pinned down by the properties (thorough tier, seed 7)
+            body = base.graphs.get(f"sub{st.kw.get('sid')}", [])
+            users = [b.op for b in body if any(a.lstrip("~") == f"p{q}" for a in b.args)]
+            if users and all(u in PLAIN_CONSUMERS for u in users) and not st.args[q].startswith("~"):
                 st.args[q] = "~" + st.args[q]
     sites = [(g, k) for g, sts in base.graphs.items() for k, st in enumerate(sts) if st.op in ("inline", "nested")]
     for tag in ("inl", "nst", "mix", "deep"):
